@@ -183,8 +183,8 @@ func (o *C07) direct(w *World, n int) {
 			k := o.rng.Intn(9)
 			for j := 0; j < k; j++ {
 				p := uint64(o.rng.Int63n(1 << 32))
-				if o.rng.Intn(4) == 0 {
-					p = 1<<32 - 1
+				if o.rng.Intn(3) == 0 { // boundary powers: a dust member rounds to 0, one dominant member holds everything
+					p = []uint64{0, 0, 1, 1 << 31, 1<<32 - 1, 1<<32 - 1}[o.rng.Intn(6)]
 				}
 				s.Signers = append(s.Signers, &mhub2types.ExternalSigner{Power: p, ExternalAddress: o.randAddr()})
 			}
@@ -323,8 +323,21 @@ func (o *C08) PreExtCall(w *World, c *ExtCall, ss *mhub2types.SignerSetTx, b *mh
 	}
 	who := o.signed[c.Chain+"|"+hex.EncodeToString(idx)]
 	power := new(big.Int)
+	// a relayer that submits everything the hub has must have been given every recorded confirmation of the
+	// members whose address is still registered (a key rotated away after confirming is C16's business)
+	bound := map[[20]byte]bool{}
+	if c.Info["full"] == "1" {
+		valExt, _, _ := w.ReadState().DelegateIndexes(c.Chain)
+		for _, raw := range valExt {
+			if len(raw) == 20 {
+				var e20 [20]byte
+				copy(e20[:], raw)
+				bound[e20] = true
+			}
+		}
+	}
 	for i, m := range e.Valset {
-		if who[m.Addr] && i < len(sigs) && sigs[i].V != 0 {
+		if who[m.Addr] && ((i < len(sigs) && sigs[i].V != 0) || bound[m.Addr]) {
 			power.Add(power, new(big.Int).SetUint64(m.Power))
 		}
 	}
